@@ -274,6 +274,20 @@ theorem fixed_bug_keeps_shapes_partial {t t1 : TTN} {c b p : Id} {C : NodeS} {bd
   · exact fun h2 => Or.inr ⟨hx, h2⟩
 
 open Ptn.C02 in
+/-- **One absorption of `contract_all_children(p)`**, at any later time (the literal, delayed one): in a
+    well-formed, label-consistent state in which the basis-change node `b` (no open axis) hangs below `p` with the
+    single child `c`, `contract_nodes(p, b, new_identifier=p)` removes `b`, makes `c` the LAST child of `p` with
+    `p` as its parent, changes nothing else in the structure and keeps every open axis. -/
+theorem bug_absorb_structure {t t' : TTN} {p b c : Id} {gp : Option Id} {L cch : List Id} (h : t.WF) (hl : t.LWF)
+    (hP : t.S p = some (gp, L)) (hB : t.S b = some (some p, [c])) (hC : t.S c = some (some b, cch))
+    (hopen : t.openAxes b = []) (hs : bugAbsorbOne t p b = some t') :
+    t'.WF ∧ t'.LWF ∧ t'.root = t.root ∧ (∀ k, t'.openAxes k = t.openAxes k) ∧
+    t'.S = fun k => if k = p then some (gp, L.erase b ++ [c]) else if k = b then none
+             else if k = c then some (some p, cch) else t.S k := by
+  obtain ⟨w, R, S'⟩ := trunc_step2 (TTN.WFX.ofLWF h hl) hP hB hC (fun _ => hopen) hs
+  exact ⟨w.wf, w.lwf trivial, R, w.op trivial, S'⟩
+
+open Ptn.C02 in
 /-- **Basis update of a node and absorption of its basis-change tensor into the parent** (`split_node_replace`,
     then the `contract_nodes(parent, c_basis_change_tensor, new_identifier=parent)` of
     `contract_all_children(parent)`): well-formed, label-consistent result, same root; `c` has become the LAST
@@ -296,7 +310,7 @@ open Ptn.C02 in
     Missing (hence `_partial`): the code absorbs the basis-change tensors of all children of a node together
     (`contract_all_children`, after the last child's update) - the literal interleaving, in which basis-change
     nodes of finished siblings are pending while a later sibling's subtree is edited, is covered event by event
-    (`bug_split_structure`, `Ptn.C02.trunc_step2` for the absorption) and by the gauge machine
+    (`bug_split_structure`, `bug_absorb_structure`) and by the gauge machine
     (`bug_step_canonical_at_root`: none is left at the end) but not by one run-level theorem. -/
 theorem bug_step_structure_partial {t t' : TTN} {es : List BugEvent} (h : t.WF) (hl : t.LWF)
     (hr : BugRun t es t') :
@@ -381,6 +395,16 @@ example : ∃ t t', TRun TTN.empty netOps t ∧
     .cons rfl rfl (.cons rfl rfl (.cons (by intro l hl; cases hl; decide) rfl (.cons trivial rfl
       (.cons trivial rfl (.nil _))))),
     rfl, rfl, rfl, rfl⟩
+
+open Ptn.C02 in
+/-- the delayed absorption: both leaves are split first (two basis-change nodes pending), then absorbed in the
+    order of the root's children list - hypotheses of `bug_absorb_structure` hold at the first absorption -/
+example : ∃ t t1 t2 t3 t4, TRun TTN.empty netOps t ∧ bugSplit t 2 50 2 = some t1 ∧ bugSplit t1 3 51 4 = some t2 ∧
+    t2.S 1 = some (none, [50, 51]) ∧ t2.S 50 = some (some 1, [2]) ∧ t2.S 2 = some (some 50, []) ∧
+    t2.openAxes 50 = [] ∧ bugAbsorbOne t2 1 50 = some t3 ∧ bugAbsorbOne t3 1 51 = some t4 ∧
+    t4.S 1 = some (none, [2, 3]) :=
+  ⟨_, _, _, _, _, .cons ⟨rfl, rfl⟩ rfl (.cons trivial rfl (.cons trivial rfl (.nil _))),
+    rfl, rfl, rfl, rfl, rfl, rfl, rfl, rfl, rfl⟩
 
 /-- hypotheses of `rank_adaptive_bonds_le_partial`: a valid parameter object with `max_bond_dim = 2` on the
     spectrum `[4, 2, 1]` keeps two values -/
